@@ -309,7 +309,7 @@ class Exec:
             if mm: return bv(ord(mm.group(1)), 8)
             c = self.eval_const(name)
             return c if c is not None else Opaque('const ' + name)
-        if re.match(r'(?:<.*>|[\w:]+)::\w+$', tok) and not re.fullmatch(r'_\d+', tok) and '(' not in tok.split('>')[-1]:
+        if re.match(r'(?:<.*>|[\w:]+)::\w+$', strip_generics(tok)) and not re.fullmatch(r'_\d+', tok) and '(' not in tok.split('>')[-1] and ' ' not in strip_generics(tok).split('>')[-1]:
             return {'__fnitem': strip_generics(tok)}          # a function item used as a value (e.g. passed to Iterator::map)
         return self.read(fid, env, tok)
 
